@@ -34,4 +34,7 @@ func runC20(c *Ctx) {
 	c.floor("ARGSWAP", 40)
 	c.runPartition("PARTITION", append(c.libPkgs(), c.fixturePkg("w")), nil)
 	c.floor("PARTITION", 0)
+	// transformed objects hand back unit normals
+	c.runUnitNormal("UNITNORMAL", append(c.libPkgs()[3:4:4], c.fixturePkg("u")), nil)
+	c.floor("UNITNORMAL", 0)
 }
